@@ -167,7 +167,11 @@ def startStep (v : Variant) (s : State) (o : Script) (r : StartRes) : Option Sta
           (if r = .err .closed then some (failStart v s2) else none)
         else
           (if r = .blocked then some { lose s2 with wedged := true } else none)
-      | .cfgErr => if r = .err .configure then some (failStart v s2) else none
+      | .cfgErr =>
+        -- the runtime end hangs up when configuration fails (as pkg/adaptation does); if that
+        -- overtakes the still unread RegisterPlugin reply, the multiplexer's Read may drop
+        -- the reply and registration is what fails
+        if r = .err .configure ∨ r = .err .register then some (failStart v s2) else none
       | .ok => if r = .ok then some (establish s2) else none
       | .stall => if r = .blocked then some { s2 with wedged := true } else none
 
